@@ -144,6 +144,11 @@ def read_task(prop, cfg, tier, seed):
         res = obj._read(offset, length)
         # replay needs every inflated range to be long enough for a crafted stream and clear of the tables
         sc = ctx.scenario
+        for n1, (f1, o1, l1, _, _) in enumerate(zlog):
+            for (f2_, o2, l2, _, _) in zlog[n1 + 1:]:
+                if f1 == f2_:
+                    # two compressed units either are the same range or do not overlap
+                    sc.extra.append(core.sym_or(core.sym_and(o1 == o2, l1 == l2), o1 + l1 <= o2, o2 + l2 <= o1))
         for (fname, off, ln, wbits, mx) in zlog:
             sc.need.append(ln >= core_sz + 32)
             for kind, f2, n2, e2, a2, v2, ai2 in E.apps:
